@@ -57,6 +57,8 @@ THEOREMS = [
     "BeyondVerif.C08.interleave_pure",
     "BeyondVerif.C08.num_points_own_propagator_matches",
     "BeyondVerif.C08.date_range_iter_fresh_matches",
+    "BeyondVerif.C08.cw_points_own_propagator_matches",
+    "BeyondVerif.C08W.cw_sibling_points_interleaved",
     "BeyondVerif.C08W.interleaved_shared_propagator_retargeted",
     "BeyondVerif.C08.ident_table_matches",
     "BeyondVerif.C08.order_matches",
@@ -103,15 +105,15 @@ LEVEL_TEXT = ("Lean theorems over an integer-microsecond model of Date.range, An
               "faithful_of_beq / propagate_pure_sgp4 for the world the correspondence runs). INTERLEAVED generators (created by Orbit.iter, advanced partly, any "
               "other create / advance / propagate in between) are first-class state of a second history model: when no two orbit objects involved hold the same propagator "
               "OBJECT, advancing any generator after ANY such sequence returns the next dates of a fresh uninterrupted iteration of its receiver, on the receiver's "
-              "trajectory (interleave_pure, by an invariant over operation sequences); that every point yielded by KeplerNum owns a propagator copy and that a DateRange "
-              "hands every consumer a cursor of its own is read from the AST (num_points_own_propagator_matches, date_range_iter_fresh_matches). Kernel-decided regression witnesses "
-              "on the inputs of the 9 repaired findings. Model tied to the code by an exact differential correspondence (dates, error kinds, binding trace, whose trajectory, events, "
+              "trajectory (interleave_pure, by an invariant over operation sequences); that every point yielded by KeplerNum and every state returned by ClohessyWiltshire owns a "
+              "propagator copy and that a DateRange hands every consumer a cursor of its own is read from the AST (num_points_own_propagator_matches, cw_points_own_propagator_matches, date_range_iter_fresh_matches). Kernel-decided regression witnesses "
+              "on the inputs of the 10 repaired findings. Model tied to the code by an exact differential correspondence (dates, error kinds, binding trace, whose trajectory, events, "
               "Listener.prev) on every run and by constants / setter kinds regenerated from the source.")
 LEVEL_NOTE = ("model hand-written (control flow), tied by exact correspondence; dates are exact integers in the model while Date carries float seconds "
               "(inputs on a 0.125 s grid where the float arithmetic is exact; date arithmetic itself is C03's); yielded STATES are abstract in the model "
               "(f(orbit value, date)) and compared on the real API by the oracle only; the numerical theorems take as a parameter any number m of integration steps "
-              "that reach stop and fill the interpolation order and assume fuel > m (fuel bounds the model's loops only; the code has no bound); 9 findings fixed in "
-              "/repo are kept as regression families and kernel-decided regression witnesses; 2 clauses are false of the current code (adaptive KeplerNum, default step, forward: open finding C08-num-adaptive-default-step, proposed_fixes/C08-i-keplernum-adaptive-default-step.diff; points of ClohessyWiltshire share one propagator object, so their iterators cannot be interleaved: open finding C08-cw-points-share-propagator, proposed_fixes/C08-j-cw-points-own-propagator.diff); "
+              "that reach stop and fill the interpolation order and assume fuel > m (fuel bounds the model's loops only; the code has no bound); 10 findings fixed in "
+              "/repo are kept as regression families and kernel-decided regression witnesses; 1 clause is false of the current code (adaptive KeplerNum, default step, forward: open finding C08-num-adaptive-default-step, proposed_fixes/C08-i-keplernum-adaptive-default-step.diff - not applied: the maintainer keeps the `step is self.step` special case); "
               "Lean kernel + propext/Classical.choice/Quot.sound")
 TECHNIQUE = "Lean 4 proof by induction over the iteration loops and over call histories + kernel decide regression witnesses; exact model/implementation correspondence"
 TRUSTED = [
@@ -133,14 +135,14 @@ ASSUMPTIONS = [
 NOT_COVERED = [
     "receiver_unchanged: in the model calls have no write access to the orbit store (a modelling decision, not a theorem); on the real code it is checked by the oracle's before/after snapshots (array bytes, date, form, frame, maneuvers, propagator identity) only",
     "equality of each yielded state with a direct propagation is by construction in the model (states are f(value, date)); on the real code: oracle, bitwise for analytical propagators and Ephem, 1 m / 1 mm/s for KeplerNum (two different RK4 paths)",
-    "UNSAFE interleaving in the current code, by design of the binding (modelled, in the correspondence, kernel-decided witness interleaved_shared_propagator_retargeted; not counted as a failure by the oracle): generators of two DIFFERENT orbit objects that hold the SAME propagator object - a propagator the user assigned to two orbits (`b.propagator = a.propagator`) - follow the orbit bound LAST (Orbit.iter binds when called, the generator reads propagator.orbit at its first next(), analytical propagators at every date): `ga = a.iter(..); gb = b.iter(..); next(ga)` returns b's state. Every orbit the library itself hands out owns its propagator (Orbit.copy, the points of Kepler / J2 / None / KeplerNum) - except the points of ClohessyWiltshire, which share one (open finding C08-cw-points-share-propagator). Sequential (atomic) use of a shared propagator is covered by propagate_pure",
+    "UNSAFE interleaving in the current code, by design of the binding (modelled, in the correspondence, kernel-decided witness interleaved_shared_propagator_retargeted; not counted as a failure by the oracle): generators of two DIFFERENT orbit objects that hold the SAME propagator object - a propagator the user assigned to two orbits (`b.propagator = a.propagator`) - follow the orbit bound LAST (Orbit.iter binds when called, the generator reads propagator.orbit at its first next(), analytical propagators at every date): `ga = a.iter(..); gb = b.iter(..); next(ga)` returns b's state. Every orbit the library itself hands out owns its propagator (Orbit.copy, the points of Kepler / J2 / None / KeplerNum, and since 31423a7 those of ClohessyWiltshire). Sequential (atomic) use of a shared propagator is covered by propagate_pure",
     "listeners shared between two interleaved generators (each clear_listeners / Listener.prev belongs to one iteration at a time) and in-place modification of an orbit while one of its generators is suspended: not modelled, not in the oracle",
     "a failing Sgp4 binding (Tle.from_orbit raises): since c604b3e the setter binds only after success; binding failures are not in the model",
     "inputs outside the quantifier, modelled and in the correspondence but without theorem: a forward range with a negative step (analytical: ValueError at once, iter_incoherent; Ephem and KeplerNum: dates until the span is left, then ValueError); step = 0 (analytical: ValueError; Ephem / KeplerNum forward: never terminates, both sides stop at the cap; KeplerNum backward: ValueError); KeplerNum.iter(start=None): AttributeError",
     "'the objects handed out do not alias what the receiver is made of' (mutating a yielded / returned state in place must not change the orbit, the points of an ephemeris, or what the same call returns next) has no counterpart in the model (states are abstract values): oracle only, over every branch of Ephem.iter (dates on / between nodes, DateRange both directions, step forward / backward on and off nodes, own points forward / backward / all), Ephem.propagate / interpolate on and between nodes, and iter / propagate of every propagator incl. KeplerNum with each method (families <kind>-alias-<branch>-*)",
     "event search (_bisect) is C10's; listeners enter here only through clear_listeners / Listener.prev / the number of events found per call",
 ]
-OPEN = ["interleave_pure assumes that no two orbit objects involved hold the same propagator object; false for the points returned by ClohessyWiltshire (open finding C08-cw-points-share-propagator, proposed_fixes/C08-j-cw-points-own-propagator.diff) and for orbits the user made share a propagator (NOT_COVERED); the interleaved model has no theorem for Ephem generators (independent by construction: oracle only)",
+OPEN = ["interleave_pure assumes that no two orbit objects involved hold the same propagator object; false only for orbits the user made share a propagator (NOT_COVERED); the interleaved model has no theorem for Ephem generators (independent by construction: oracle only)",
         "numerical_iter_dates_forward_default_partial: with the DEFAULT step (absent / None / propagator.step itself) the forward contract is proved for fixed-step methods only (all rs = h). The excluded case - adaptive rkf54 / dopri54 - is a genuine failure of the current code (Witness numerical_default_step_raw_points, known finding C08-num-adaptive-default-step, proposed_fixes/C08-i-keplernum-adaptive-default-step.diff)",
         "Ephem.iter with start and/or stop ABSENT (defaults: the ends of the tabulated span) has no theorem of its own (modelled, in the correspondence); the clamping theorems (strict=False) are stated for a stop given as a date, not as a timedelta (which the code resolves from the unclamped start)",
         "an exclusive BACKWARD DateRange is covered by iter_dates_range / ephem_iter_dates_range / numerical_iter_dates_range_backward (the iterator yields exactly what the object yields, rangeRun) but rangeRun itself is characterised as a grid only for inclusive ranges and exclusive forward ranges"]
@@ -470,6 +472,23 @@ def num_points_own_propagator():
     raise RuntimeError("KeplerNum._iter: the final loop `yield orb.as_orbit(self.copy())` was not found in the shape the model knows")
 
 
+def cw_points_own_propagator():
+    """ClohessyWiltshire._propagate gives the state it returns a propagator of its own: `new.propagator = self.copy()`"""
+    src = open(os.path.join(core.REPO, "beyond", "propagators", "cw.py")).read()
+    for node in ast.walk(ast.parse(src)):
+        if isinstance(node, ast.FunctionDef) and node.name == "_propagate":
+            ret = [st for st in node.body if isinstance(st, ast.Return)]
+            name = ret[-1].value.id if ret and isinstance(ret[-1].value, ast.Name) else None
+            for st in node.body:
+                if (isinstance(st, ast.Assign) and isinstance(st.targets[0], ast.Attribute) and st.targets[0].attr == "propagator"
+                        and isinstance(st.targets[0].value, ast.Name) and st.targets[0].value.id == name
+                        and isinstance(st.value, ast.Call) and isinstance(st.value.func, ast.Attribute) and st.value.func.attr == "copy"
+                        and isinstance(st.value.func.value, ast.Name) and st.value.func.value.id == "self"):
+                    return True
+            return False
+    raise RuntimeError("ClohessyWiltshire._propagate not found in beyond/propagators/cw.py")
+
+
 def date_range_iter_is_fresh_generator():
     """DateRange.__iter__ is a generator function (contains `yield`) and DateRange defines no __next__: each iter(range) is an
     independent cursor"""
@@ -489,6 +508,7 @@ def extract(ctx):
     ident = step_test_is_identity()
     own = num_points_own_propagator()
     fresh = date_range_iter_is_fresh_generator()
+    cw_own = cw_points_own_propagator()
     rows = [(k, setter_keeps_object(fn, cls)) for k, fn, cls in SETTERS] + [("ephem", False)]
     txt = ("/- GENERATED by harness/props/C08.py from beyond/orbits/ephem.py and beyond/propagators/*.py on every run -/\n"
            "namespace BeyondVerif.Generated\n"
@@ -499,6 +519,8 @@ def extract(ctx):
            f"def numStepTestIsIdentity : Bool := {'true' if ident else 'false'}\n"
            "/-- `KeplerNum._iter`: `yield orb.as_orbit(self.copy())` - the copy is made inside the loop, one per yielded point -/\n"
            f"def numPointsOwnPropagator : Bool := {'true' if own else 'false'}\n"
+           "/-- `ClohessyWiltshire._propagate`: `new.propagator = self.copy()` - every returned state gets a propagator of its own -/\n"
+           f"def cwPointsOwnPropagator : Bool := {'true' if cw_own else 'false'}\n"
            "/-- `DateRange.__iter__` is a generator function and the class has no `__next__` -/\n"
            f"def dateRangeIterIsFreshGenerator : Bool := {'true' if fresh else 'false'}\n"
            "end BeyondVerif.Generated\n")
